@@ -36,14 +36,28 @@ SUB_B = {"ops": [{"kind": "EW2", "ins": [0, 1], "outs": [2]}, {"kind": "EW1", "i
          "trole": ["act", "c", "act", "act"], "gins": [0], "gouts": [3]}
 
 
+# two graph inputs (the virtual INPUT operator has two "outputs") and a SPLIT (two real outputs): a rule may name any ONE of them
+NAMES_C = {0: "serving_default_a:0", 1: "serving_default_b:0", 2: "model/split/split_dim", 3: "model/split", 4: "model/split:1",
+           5: "model/add_1/add", 6: "PartitionedCall:0"}
+SUB_C = {"ops": [{"kind": "SPLIT", "ins": [2, 0], "outs": [3, 4]}, {"kind": "EW2", "ins": [3, 1], "outs": [5]}, {"kind": "FIXT", "ins": [4], "outs": [6]}],
+         "trole": ["act", "act", "aux", "act", "act", "act", "act"], "tsh": [[1, 2], [1, 1], [0, 0], [1, 1], [1, 1], [1, 1], [1, 1]], "gins": [0, 1], "gouts": [5, 6]}
+MODEL_NAMES = {"one_signature": [NAMES], "two_signatures": [NAMES, NAMES_B], "two_signatures_table_reversed": [NAMES, NAMES_B], "two_inputs_split": [NAMES_C]}
+
+
 def models():
   one = {"subs": [SUB_A], "mode": [[NOQ] * 3], "inmode": NOQ, "outmode": NOQ, "codes": [["FULLY_CONNECTED", "ADD", "TANH"]]}
   two = {"subs": [SUB_A, SUB_B], "mode": [[NOQ] * 3, [NOQ] * 2], "inmode": NOQ, "outmode": NOQ,
          "codes": [["FULLY_CONNECTED", "ADD", "TANH"], ["MUL", "GELU"]]}
   nf = lambda si, t: (NAMES if si == 0 else NAMES_B)[t]
   two_rev = dict(two, sigtabrev=True)      # the same model with its signature table in the other order
-  return {"one_signature": (one, synth.build(one, 0, name_fn=nf)), "two_signatures": (dict(two, sigtabrev=False), synth.build(dict(two, sigtabrev=False), 0, name_fn=nf)),
-          "two_signatures_table_reversed": (two_rev, synth.build(two_rev, 0, name_fn=nf))}
+  multi = {"subs": [SUB_C], "mode": [[NOQ] * 3], "inmode": NOQ, "outmode": NOQ, "codes": [["SPLIT", "ADD", "TANH"]]}
+  extra = {}
+  try:
+    extra["two_inputs_split"] = (multi, synth.build(multi, 0, name_fn=lambda si, t: NAMES_C[t]))
+  except synth.Unrealisable:
+    pass
+  return dict(extra, **{"one_signature": (one, synth.build(one, 0, name_fn=nf)), "two_signatures": (dict(two, sigtabrev=False), synth.build(dict(two, sigtabrev=False), 0, name_fn=nf)),
+          "two_signatures_table_reversed": (two_rev, synth.build(two_rev, 0, name_fn=nf))})
 
 
 def patterns(names):
@@ -90,7 +104,7 @@ def main():
     all_pairs += component_scopes(model)
   scope_strings = sorted({s for _, a, b in all_pairs for s in (a, b)})
   sid = {s: "s%d" % i for i, s in enumerate(scope_strings)}
-  out_names = sorted({n for n in list(NAMES.values()) + list(NAMES_B.values())})
+  out_names = sorted({n for n in list(NAMES.values()) + list(NAMES_B.values()) + list(NAMES_C.values())})
   pats = patterns(out_names)
   if args.tier == "quick":
     pats = common.sample_keep(pats, 45, args.seed)
@@ -121,8 +135,13 @@ def main():
   for mname, (scn, (model, info)) in mods.items():
     proj = project.project(model)
     pairs = component_scopes(model)
-    for pat in pats:
-      for osel in sel_ops:
+    mpats, msel = pats, sel_ops
+    if mname == "two_inputs_split":
+      # its own patterns, never sampled away: every name alone and as a complete scope component
+      mpats = [".*"] + [p_ for n_ in NAMES_C.values() for p_ in (re.escape(n_), re.escape(n_) + ";", "^" + re.escape(n_))]
+      msel = ["*", "SPLIT", "INPUT", "OUTPUT", "ADD"]
+    for pat in mpats:
+      for osel in msel:
         for cname, cfg in cfgs.items():
           q = quantizer.Quantizer(model)
           try:
@@ -178,7 +197,7 @@ def main():
               else:
                 acts = sub["gins"] if code == "INPUT" else sub["gouts"]
                 touched = None      # the virtual operators leave no mark of their own when their neighbours agree
-              names = [(NAMES if si == 0 else NAMES_B)[t] for t in acts]
+              names = [MODEL_NAMES[mname][si][t] for t in acts]
               calibrated = cal is not None and all(n in cal and "min" in cal[n] for n in names)
               want = (si, oi) in predicted
               if touched is not None and touched != want:
